@@ -259,6 +259,77 @@ def check_expected_decoded(dec, want):
     return have == want, have
 
 
+# ---- the meaning of the stream does not depend on what the client says it supports ----
+STD_TYPES = ["namespace", "type", "class", "enum", "interface", "struct", "typeParameter", "parameter", "variable", "property", "enumMember",
+             "event", "function", "method", "macro", "keyword", "modifier", "comment", "string", "number", "regexp", "operator", "decorator"]
+STD_MODS = ["declaration", "definition", "readonly", "static", "deprecated", "abstract", "async", "modification", "documentation", "defaultLibrary"]
+CLIENT_CAPS = [
+    ("no-capabilities", {}),
+    ("all-standard", {"textDocument": {"semanticTokens": {"requests": {"full": True}, "tokenTypes": STD_TYPES, "tokenModifiers": STD_MODS,
+                                                          "formats": ["relative"]}}}),
+    ("no-comment-type", {"textDocument": {"semanticTokens": {"requests": {"full": True}, "tokenTypes": [t for t in STD_TYPES if t != "comment"],
+                                                             "tokenModifiers": STD_MODS, "formats": ["relative"]}}}),
+    ("only-keyword-variable", {"textDocument": {"semanticTokens": {"requests": {"full": True}, "tokenTypes": ["variable", "keyword"],
+                                                                   "tokenModifiers": [], "formats": ["relative"]}}}),
+    ("reversed", {"textDocument": {"semanticTokens": {"requests": {"full": {"delta": True}, "range": True}, "tokenTypes": STD_TYPES[::-1],
+                                                      "tokenModifiers": STD_MODS[::-1], "formats": ["relative"]}}}),
+    ("empty-lists", {"textDocument": {"semanticTokens": {"requests": {}, "tokenTypes": [], "tokenModifiers": [], "formats": []}}}),
+    ("no-declaration-modifier", {"textDocument": {"semanticTokens": {"requests": {"full": True}, "tokenTypes": STD_TYPES,
+                                                                     "tokenModifiers": ["readonly", "static"], "formats": ["relative"]}}}),
+    ("unknown-names", {"textDocument": {"semanticTokens": {"requests": {"full": True}, "tokenTypes": ["foo", "comment", "bar"],
+                                                           "tokenModifiers": ["baz"], "formats": ["relative"], "multilineTokenSupport": True,
+                                                           "overlappingTokenSupport": True}}}),
+]
+
+
+def caps_session(exe, caps, texts):
+    """(legend, [decoded stream | problem string]) of one session initialised with the client capabilities `caps`"""
+    import lspclient
+    import queue
+    s = lspclient.Server(exe)
+    out = []
+    try:
+        try:
+            r = s.request("initialize", {"processId": None, "rootUri": None, "capabilities": caps}, timeout=90.0)
+        except queue.Empty:
+            return None, ["no answer to initialize"] * len(texts)
+        if not isinstance(r, dict) or "result" not in r:
+            return None, ["initialize answered with %r" % (r,)] * len(texts)
+        s.notify("initialized", {})
+        legend = ((r["result"].get("capabilities") or {}).get("semanticTokensProvider") or {}).get("legend") or {}
+        for k, t in enumerate(texts):
+            uri = "file:///caps_%d.spl" % k
+            s.open(uri, t)
+            try:
+                a = s.request("textDocument/semanticTokens/full", {"textDocument": {"uri": uri}}, timeout=20.0)
+            except queue.Empty:
+                a = None
+            data = a.get("result", {}).get("data") if isinstance(a, dict) and isinstance(a.get("result"), dict) else None
+            out.append(L.decode(data, legend) if isinstance(data, list) else "no semantic tokens: %r" % (a,))
+            s.close(uri)
+        return legend, out
+    finally:
+        s.kill()
+
+
+def caps_stage(exe, texts):
+    """the decoded streams (type NAMES, modifier NAMES) must be the same whatever the client announces; returns (violations, evidence)"""
+    with ThreadPoolExecutor(3) as ex:
+        res = list(ex.map(lambda nc: caps_session(exe, nc[1], texts), CLIENT_CAPS))
+    (legend0, base), viol = res[0], []
+    for (name, caps), (legend, dec) in zip(CLIENT_CAPS[1:], res[1:]):
+        for t, a, b in zip(texts, base, dec):
+            if a != b:
+                viol.append(dict(kind="client-capabilities", property=PID, text=t, client=name, client_capabilities=caps,
+                                 legend_without_capabilities=legend0, legend_announced=legend,
+                                 decoded_without_capabilities=a if isinstance(a, str) else [list(x) for x in a][:40],
+                                 decoded=b if isinstance(b, str) else [list(x) for x in b][:40],
+                                 what="decoded against the legend announced in ITS session, the token stream differs from the one a "
+                                      "client without semantic-token capabilities gets for the same text"))
+                break
+    return viol, dict(clients=[n for n, _ in CLIENT_CAPS], documents=len(texts), deviations=len(viol))
+
+
 def run(ctx):
     proved = common.proof_stage(ctx)
     exe, log = common.build_server()
@@ -396,6 +467,10 @@ def run(ctx):
     viol.sort(key=lambda v: v[0])
     for _, v in viol[:3]:
         ctx.violation(v)
+    caps_texts = [t for tag, t, _ in docs if tag in ("valid", "shadow") and "//" in t][:6] + [t for tag, t, _ in docs if tag == "damaged"][:2]
+    cviol, caps_cov = caps_stage(exe, caps_texts)
+    for v in cviol[:2]:
+        ctx.violation(v)
 
     # --- kernel judge on a sample of short documents
     short = [n for n in range(len(docs)) if len(texts[n]) <= 160 and n not in mism and isinstance(srv[n], list)]
@@ -428,6 +503,7 @@ def run(ctx):
                 "lexical class. Classification oracle on well-typed programs: the stream must be exactly keywords/numbers/comments with "
                 "their class + every identifier with the kind of its binding (splscope) and the declaration bit on the declaring occurrence. "
                 "non-trivial = distinct documents whose stream has >= 3 tokens",
+        "client_capabilities": caps_cov,
         "input_histogram": hist, "token_types_seen": types_seen, "legend": legend,
         "coq_full_statement_flags_on_valid_programs": {str(k): v for k, v in sorted(spec_hist.items())},
         "coq_spec_vs_oracle_disagreements": len(spec_disagree),
@@ -474,6 +550,13 @@ EXPLANATION = (
 
 def replay(ctx, path):
     r = json.load(open(path))
+    if r.get("kind") == "client-capabilities":
+        exe, _ = common.build_server()
+        l0, (a,) = caps_session(exe, {}, [r["text"]])
+        l1, (b,) = caps_session(exe, r["client_capabilities"], [r["text"]])
+        print("legend without capabilities:", l0, "\nlegend announced:", l1)
+        print("same decoded stream" if a == b else "decoded streams differ:\n  %r\n  %r" % (a, b))
+        return 0 if a == b else 1
     if "text" not in r:
         print(json.dumps(r, indent=1)[:3000])
         return 1
